@@ -11,7 +11,7 @@ from __future__ import annotations
 import z3
 
 from .values import *  # noqa: F401,F403
-from .values import VStr, VInt, VBool, VList, VTuple, VOpt, VNone, NONE, Unsupported, STR, INT, BOOL
+from .values import VStr, VInt, VBool, VList, VTuple, VOpt, VNone, NONE, VOpaque, Unsupported, STR, INT, BOOL
 from . import values as vals
 
 _ufs = {}
@@ -267,6 +267,10 @@ def call_method(it, recv: VStr, name: str, args, kwargs):
         return decode_model(it, recv, args, kwargs)
     if name == "join":
         seq = args[0]
+        if isinstance(seq, VOpaque) and seq.cls == "Chunks" and vals.concrete_str(recv) == "":
+            from .models.dulwichmodels import joined
+
+            return joined(it, seq)
         if isinstance(seq, (VList, VTuple)) and getattr(seq, "items", None) is not None:
             items = seq.items
             if not items:
